@@ -112,6 +112,20 @@ func (s *c03Stack) do(r HReq) []bool {
 		e := Ent{Key: r.Keys[0], S: r.S, T: r.T, Root: r.Root}
 		_, sig := s.rig.Signer.SignBeaconAttestation(s.rig.Ctx, c03Creds, "Wallet 1/"+s.accts[r.Keys[0]].Name(), nil, AttData(e))
 		return []bool{len(sig) > 0}
+	case "atts-longkey":
+		// Every entry is addressed by its public key followed by one more byte (the account lookup uses the first 48).
+		keys := make([][]byte, len(r.Keys))
+		data := make([]*rules.SignBeaconAttestationData, len(r.Keys))
+		for i, k := range r.Keys {
+			keys[i] = append(append([]byte{}, s.accts[k].PubBytes()...), 0x00)
+			data[i] = AttData(Ent{Key: k, S: r.S, T: r.T, Root: r.Root})
+		}
+		_, sigs := s.rig.Signer.SignBeaconAttestations(s.rig.Ctx, c03Creds, make([]string, len(r.Keys)), keys, data)
+		out := make([]bool, len(r.Keys))
+		for i := range out {
+			out[i] = i < len(sigs) && len(sigs[i]) > 0
+		}
+		return out
 	case "atts", "atts-badfirst":
 		names := make([]string, len(r.Keys))
 		data := make([]*rules.SignBeaconAttestationData, len(r.Keys))
@@ -451,6 +465,7 @@ func c03Histories(tier string) [][]HReq {
 		{Kind: "prop", Keys: []int{1}, Slot: 7, Root: 1},
 		{Kind: "prop", Keys: []int{0}, Slot: 5, Root: 2}, // conflicts
 		{Kind: "atts-badfirst", Keys: []int{0, 1}, S: 2, T: 5, Root: 1},
+		{Kind: "atts-longkey", Keys: []int{0, 1}, S: 2, T: 7, Root: 1},
 	}
 	var hs [][]HReq
 	for _, a := range menu {
@@ -525,7 +540,7 @@ func C03(tier string) int {
 	hists := c03Histories(tier)
 	budget := 240 * time.Second
 	if tier == "thorough" {
-		budget = 90 * time.Minute
+		budget = 30 * time.Minute
 	}
 	deadline := time.Now().Add(budget)
 	stats := &c03Stats{variants: map[string]int{}}
@@ -587,7 +602,7 @@ func C03(tier string) int {
 		"large_batch":                            map[string]any{"keys": largeN, "entries_that_reached_signing": largeSigned},
 		"evaluations":                            stats.kills + stats.images + stats.fullRuns,
 		"distinct_nontrivial":                    stats.histories,
-		"rule":                                   "histories of 1-2 requests (all over a 9-request menu incl. conflicting ones and a batch whose first entry is refused, single/batch/proposal on 2 keys; 3 in thorough) plus fixed length-4 histories, run by a child process on the real signer stack; (1) the child is killed with SIGKILL at every hook point (store enter/exit, rules enter/exit, sign, request start/end); (2) the child runs under strace and every system-call boundary on the storage directory is a power-loss point: for each, every directory image allowed by the persistence model (metadata in order; O_DSYNC writes durable at exit and absent/complete/torn while in flight; other writes volatile until fsync and dropped as none/all/each/each suffix) is materialised; every image and every killed directory is reopened by the real code and probed with every request conflicting with a request that had reached signing: either the instance refuses to start or it refuses all of them; in the final image each completed write to the value log is damaged in turn (four garbled bytes) with the same oracle; (3) the storage runs full (RLIMIT_FSIZE in the child: the write crossing the limit is cut short, every later write fails) from each request of the history on, at offsets over the bytes that request appends to the value log, and the same restart-and-probe oracle is applied; (4) one batch of very many keys (large_batch) is answered, the process is killed, and every entry is probed after the restart; distinct = histories",
+		"rule":                                   "histories of 1-2 requests (all over a 10-request menu incl. conflicting ones and a batch whose first entry is refused, single/batch/proposal on 2 keys; 3 in thorough) plus fixed length-4 histories, run by a child process on the real signer stack; (1) the child is killed with SIGKILL at every hook point (store enter/exit, rules enter/exit, sign, request start/end); (2) the child runs under strace and every system-call boundary on the storage directory is a power-loss point: for each, every directory image allowed by the persistence model (metadata in order; O_DSYNC writes durable at exit and absent/complete/torn while in flight; other writes volatile until fsync and dropped as none/all/each/each suffix) is materialised; every image and every killed directory is reopened by the real code and probed with every request conflicting with a request that had reached signing: either the instance refuses to start or it refuses all of them; in the final image each completed write to the value log is damaged in turn (four garbled bytes) with the same oracle; (3) the storage runs full (RLIMIT_FSIZE in the child: the write crossing the limit is cut short, every later write fails) from each request of the history on, at offsets over the bytes that request appends to the value log, and the same restart-and-probe oracle is applied; (4) one batch of very many keys (large_batch) is answered, the process is killed, and every entry is probed after the restart; distinct = histories",
 		"samples":                                samples.List(),
 		"exhaustive":                             !capped,
 		"histories":                              stats.histories,
